@@ -1,6 +1,8 @@
 package main
 
 import (
+	"github.com/insomniacslk/dhcp/dhcpv4"
+	"github.com/insomniacslk/dhcp/dhcpv6"
 	"sort"
 	"bytes"
 	"fmt"
@@ -151,6 +153,7 @@ func genC19(r *Run) {
 	rec = func(cur []byte) {
 		r.Add(eLabelFrom, append([]byte{}, cur...))
 		r.Add(eLabelReenc, append([]byte{}, cur...))
+		checkWrappers(r, cur)
 		if len(cur) == maxLen {
 			return
 		}
@@ -185,6 +188,7 @@ func genC19(r *Run) {
 			}
 		}
 		r.Count(fmt.Sprintf("dual_reading_blocks=%d", k))
+		checkWrappers(r, b)
 		r.Add(eLabelFrom, b)
 		r.Add(eLabelReenc, b)
 	}
@@ -258,6 +262,7 @@ func genC19(r *Run) {
 			r.Add(eLabelFrom, m)
 			r.Add(eLabelReenc, m)
 			checkLabelDecode(r, m)
+			checkWrappers(r, m)
 			// 4. single edits of a parsed set
 			if pl, err := rfc1035label.FromBytes(m); err == nil {
 				ed := append([]string{}, pl.Labels...)
@@ -390,6 +395,36 @@ func applyEdit(l *rfc1035label.Labels, ed []string) {
 		l.Labels = append(cur, ed[len(cur):]...)
 	default:
 		l.Labels = append([]string{}, ed...)
+	}
+}
+
+// checkWrappers: the options that carry domain names keep a parsed, unmodified name field verbatim
+// (compressed and partial names included): DHCPv6 domain search list (24), client FQDN (39), NTP server FQDN (56/3)
+func checkWrappers(r *Run, b []byte) {
+	if _, err := rfc1035label.FromBytes(append([]byte{}, b...)); err != nil || len(b) > 2000 {
+		return
+	}
+	try := func(what string, code uint16, val []byte) {
+		o, err := dhcpv6.ParseOption(dhcpv6.OptionCode(code), append([]byte{}, val...))
+		if err != nil {
+			r.Fail("wrapper-rejects-"+what, hx(b), err.Error())
+			return
+		}
+		if out := o.ToBytes(); !bytes.Equal(out, val) {
+			r.Fail("wrapper-reencode-"+what, hx(b), fmt.Sprintf("the %s option re-encodes its unmodified name field as %x, received %x", what, out, val))
+		}
+	}
+	try("domain-search-list", 24, b)
+	try("client-fqdn", 39, append([]byte{1}, b...))
+	try("ntp-server-fqdn", 56, append([]byte{0, 3, byte(len(b) >> 8), byte(len(b))}, b...))
+	o4 := &dhcpv4.DHCPv4{Options: dhcpv4.Options{}}
+	if len(b) > 0 {
+		o4.Options[119] = append([]byte{}, b...)
+		if ls := o4.DomainSearch(); ls != nil {
+			if out := dhcpv4.OptDomainSearch(ls).Value.ToBytes(); !bytes.Equal(out, b) {
+				r.Fail("wrapper-reencode-dhcpv4-domain-search", hx(b), fmt.Sprintf("re-encoded as %x", out))
+			}
+		}
 	}
 }
 
